@@ -66,6 +66,16 @@ ASSUMPTIONS = [
     "random leaves are opaque: only reproducibility per seed, range, length, "
     "no-repeat (Pxrand), zero-weight exclusion (Pwrand) are judged; integer "
     "Pwhite never returning its upper bound (rrand) is accepted as in range",
+    "input values: every pull j of a stream gets the input value base + j*delta "
+    "(None, a number or a dict; delta 0 = constant); a value is computed with "
+    "the input value of the pull that produces it, everything a pattern pulls "
+    "from its sources during that pull sees the same value, Plazy evaluates its "
+    "function with the input value of the pull that starts the embedding; "
+    "Prout bodies follow the embedding protocol (take inval, return the last "
+    "one); Stream.all(inval) is only driven with a constant input value",
+    "the corrected Pdrop / Prout embedding generators in vf/c13_build.py "
+    "(fixed_classes) are used only to attribute a mismatch to a mechanism key, "
+    "never to decide whether there is a mismatch",
     "event patterns, Pkey, Ptime, Pchain and time patterns are C14's; stream "
     "methods collect/select/reject/++ do not exist in the port"]
 MIN_COUNTERS = {
